@@ -2,7 +2,7 @@
    the model's own observations. *)
 From Util Require Import Common.Base Common.ListLemmas RefCount.Model RefCount.Spec RefCount.Proofs RefCount.ProofsC08 RefCount.ProofsC08b
   RefCount.ProofsC09 RefCount.ProofsC10 RefCount.ProofsC10a RefCount.ProofsC10b RefCount.ProofsCodec RefCount.ProofsMon RefCount.ProofsMon2 RefCount.ProofsMon3
-  RefCount.ProofsMon4 RefCount.ProofsMon5 RefCount.ProofsMon6 RefCount.ProofsMon7 RefCount.ProofsMonG RefCount.ProofsMon8 RefCount.ProofsMon9 RefCount.ProofsMon10 RefCount.ProofsMon11 RefCount.ProofsMon12 RefCount.ProofsMon13 RefCount.ProofsMon14 RefCount.ProofsMon15 RefCount.ProofsMon16.
+  RefCount.ProofsMon4 RefCount.ProofsMon5 RefCount.ProofsMon6 RefCount.ProofsMon7 RefCount.ProofsMonG RefCount.ProofsMon17 RefCount.ProofsMonE RefCount.ProofsMon18 RefCount.ProofsMon8 RefCount.ProofsMon9 RefCount.ProofsMon10 RefCount.ProofsMon11 RefCount.ProofsMon12 RefCount.ProofsMon13 RefCount.ProofsMon14 RefCount.ProofsMon15 RefCount.ProofsMon16.
 Open Scope nat_scope.
 
 (* the monitor restricted to a set of clauses *)
@@ -27,7 +27,6 @@ Record Rn (m : mst) (h : hst) : Prop := {
   rn_out : Rout m (hs h);
   rn_empty : Rempty m (hs h);
   rn_inval : Rinval m (hs h);
-  rn_acc : Racc m (hs h);
 }.
 Definition R (m : mst) (h : hst) : Prop := Rproj m h /\ (hconst h = false -> Rn m h).
 
@@ -69,7 +68,7 @@ Qed.
 Lemma mon_step m h e h' o :
   HR h -> R m h -> hstep h e = Some (h', o) ->
   exists m' f, mon (Some m) e o = (Some m', f) /\
-    (forall pc, In pc f -> proved pc = false /\ (hconst h = false -> proved_acc pc = false)) /\ R m' h' /\ HR h' /\ hconst h' = hconst h.
+    (forall pc, In pc f -> proved pc = false) /\ R m' h' /\ HR h' /\ hconst h' = hconst h.
 Proof.
   intros HRh [HP HN] H. destruct (hstep_dec h e h' o H) as [e0 [rets [Hd Hfin]]].
   assert (Eh : h' = fst (fin_of h (step repaired (hs h) e0) rets)) by (now rewrite <- Hfin).
@@ -79,30 +78,23 @@ Proof.
   unfold mon. rewrite Eo, (parse_obs e rets _ _ Hr). fold p. rewrite mon1_eq.
   eexists _, _. split; [reflexivity|]. split; [|split; [|split]].
   - intros pc Hin. apply in_app_or in Hin. destruct Hin as [Hin|Hin].
-    2:{ destruct (facc_clauses m e p pc Hin) as [A B]. split.
-        - destruct pc as [a b]. cbn in A, B. subst a. destruct b as [|[|[|[|[|[|[|[|b]]]]]]]]; try reflexivity; exfalso; lia.
-        - intros Hc. destruct (HN Hc) as [Hcalled Hcur Hout Hem Hinv Hacc].
-          destruct (clauses_10_4_5 m h e e0 rets HRh HP Hd Hc Hcur Hacc pc Hin) as [N4 N5].
-          destruct pc as [a b]. cbn in A, B. subst a. unfold proved_acc.
-          destruct b as [|[|[|[|[|[|[|[|b]]]]]]]]; try reflexivity; try (exfalso; lia); exfalso; [now apply N4 | now apply N5]. }
-    rewrite (rp_const m h HP) in Hin. destruct (hconst h) eqn:Hc; [destruct Hin|]. destruct (HN eq_refl) as [Hcalled Hcur Hout Hem Hinv Hacc].
-    assert (PA : proved pc = false -> proved pc = false /\ (false = false -> proved_acc pc = false) -> proved pc = false /\ (false = false -> proved_acc pc = false)) by auto.
+    2:{ destruct (facc_clauses m e p pc Hin) as [A B].
+        destruct pc as [a b]. cbn in A, B. subst a. destruct b as [|[|[|[|[|[|[|[|b]]]]]]]]; try reflexivity; exfalso; lia. }
+    rewrite (rp_const m h HP) in Hin. destruct (hconst h) eqn:Hc; [destruct Hin|]. destruct (HN eq_refl) as [Hcalled Hcur Hout Hem Hinv].
     unfold u_all in Hin. unfold p in Hin.
     rewrite (clause_8_1 m h e e0 rets HRh Hd Hc Hcalled), (clause_8_2 h e e0 rets HRh Hd Hc), (clause_8_3 m h e e0 rets HRh HP Hd Hc),
-      (clause_8_4 m h e e0 rets HRh HP Hd Hc Hout Hcur), (clause_9_3 m h e e0 rets HRh HP Hd Hc Hcur Hem),
+      (clause_8_4 m h e e0 rets HRh HP Hd Hc Hout Hcur Hem), (clause_9_3 m h e e0 rets HRh HP Hd Hc Hcur Hem),
       (clause_9_1 h e e0 rets HRh Hd), (clause_9_2 h e e0 rets HRh Hd), (clause_9_4 m h e e0 rets HRh HP Hd Hc Hcur),
       (clause_9_5 m h e e0 rets HRh HP Hd Hc), (clause_10_1 m h e e0 rets HRh HP Hd Hc),
-      (clause_10_2 h e e0 rets HRh Hd), (clause_10_3 m h e e0 rets HRh HP Hd Hc Hcur Hinv) in Hin.
-    cbn [app] in Hin.
-    repeat (apply in_app_or in Hin; destruct Hin as [Hin|Hin]); try (apply fails_in in Hin; subst pc; split; reflexivity); destruct Hin.
-  - rewrite Eh. split; [exact (Rproj_step m h e e0 rets HRh HP Hd)|]. unfold fin_of. cbn [fst hs hconst]. intros Hc. destruct (HN Hc) as [Hcalled Hcur Hout Hem Hinv Hacc].
+      (clause_10_2 h e e0 rets HRh Hd), (clause_10_3 m h e e0 rets HRh HP Hd Hc Hcur Hem Hinv) in Hin.
+    destruct Hin.
+  - rewrite Eh. split; [exact (Rproj_step m h e e0 rets HRh HP Hd)|]. unfold fin_of. cbn [fst hs hconst]. intros Hc. destruct (HN Hc) as [Hcalled Hcur Hout Hem Hinv].
     constructor; cbn [hs].
     + exact (upd_called m h e0 rets HRh Hc Hcalled).
-    + exact (upd_cur m h e e0 rets HRh HP Hd Hc Hcur).
+    + exact (upd_cur_c m h e e0 rets (HR_HRc h HRh Hc) HP Hd Hcur Hem).
     + exact (upd_out m h e e0 rets HRh Hd Hc Hout).
-    + exact (upd_empty m h e e0 rets HRh Hd Hc Hem).
-    + exact (upd_inval m h e e0 rets HRh HP Hd Hc Hcur Hinv).
-    + exact (upd_acc m h e e0 rets HRh HP Hd Hc Hcur Hacc).
+    + exact (upd_empty m h e e0 rets (HR_HRc h HRh Hc) Hd Hem).
+    + exact (upd_inval m h e e0 rets HRh HP Hd Hc Hcur Hem Hinv).
   - rewrite Eh. exact (HR_step h e e0 rets HRh Hd).
   - rewrite Eh. reflexivity.
 Qed.
@@ -119,15 +111,6 @@ Proof.
   exists m'. split; [|split; assumption]. unfold mon_only. rewrite Em. f_equal. apply filter_none. intros pc Hpc. apply (Hf pc Hpc).
 Qed.
 
-Lemma mon_only_acc_nil m h e h' o :
-  HR h -> R m h -> hconst h = false -> hstep h e = Some (h', o) ->
-  exists m', mon_only proved_acc (Some m) e o = (Some m', []) /\ R m' h' /\ HR h' /\ hconst h' = false.
-Proof.
-  intros HRh HRm Hc H. destruct (mon_step m h e h' o HRh HRm H) as [m' [f [Em [Hf [HR' [HH' Ec]]]]]].
-  exists m'. split; [|split; [assumption | split; [assumption | congruence]]]. unfold mon_only. rewrite Em. f_equal. apply filter_none.
-  intros pc Hpc. now apply (Hf pc Hpc).
-Qed.
-
 Theorem model_satisfies_monitors_gen evs : forall h m i rep, HR h -> R m h ->
   monitor (mon_only proved) i (Some m) rep evs (run_obs step_opt (Some h) evs) = [].
 Proof.
@@ -138,21 +121,21 @@ Proof.
 Qed.
 
 Lemma Rn_init m h :
-  m_called m = [] -> m_cur m = None -> m_out m = [] -> m_empty m = [] -> m_inval m = [] -> m_acb m = [] -> m_ainv m = [] -> conss (hs h) = [] ->
+  m_called m = [] -> m_cur m = None -> m_out m = [] -> m_empty m = [] -> m_emptyok m = [] -> m_inval m = [] ->
   rellog (hs h) = [] -> resolved (hs h) = false -> gs (hs h) = [] -> Rn m h.
 Proof.
-  intros E1 E2 E3 E4 E5 E6 E7 F0 F1 F2 F3. constructor.
+  intros E1 E2 E3 E4 E4' E5 F1 F2 F3. constructor.
   - now rewrite E1, F1.
   - unfold cur_of. now rewrite E2, F2.
   - intros g Hg. rewrite E3 in Hg. discriminate.
-  - constructor.
+  - constructor; constructor.
     + intros g Hg. rewrite E4 in Hg. discriminate.
     + intros i v hr e [x [Hx _]]. rewrite F3 in Hx. destruct i; discriminate.
     + intros Er. congruence.
+    + intros g Hg. rewrite E4' in Hg. discriminate.
+    + intros i v hr e [x [Hx _]]. rewrite F3 in Hx. destruct i; discriminate.
+    + intros Er. congruence.
   - intros c Hcn. rewrite E5 in Hcn. destruct c; discriminate.
-  - constructor.
-    + intros i. rewrite E6. unfold getc. rewrite F0. destruct i; reflexivity.
-    + intros i Hi. rewrite E7 in Hi. destruct i; discriminate.
 Qed.
 
 Lemma R_init cfg h m : hinit cfg = Some h -> minit cfg = Some m -> R m h.
@@ -189,32 +172,3 @@ Theorem model_run_check_clean_clauses cfg evs :
   length (run_obs step_opt (hinit cfg) evs) = length evs ->
   run_check step_opt (mon_only proved) (hinit cfg) (minit cfg) evs (run_obs step_opt (hinit cfg) evs) = [].
 Proof. intros Hl. unfold run_check. rewrite (replay_own evs _ 0 Hl), model_satisfies_monitors_clauses. reflexivity. Qed.
-
-(* ------------------------------------------------------------------ *)
-(* the configurations with generation-unique resolver values ([k] and [k; 0]): additionally the Access clauses 10.4, 10.5 *)
-Theorem model_satisfies_monitors_acc_gen evs : forall h m i rep, HR h -> R m h -> hconst h = false ->
-  monitor (mon_only proved_acc) i (Some m) rep evs (run_obs step_opt (Some h) evs) = [].
-Proof.
-  induction evs as [|e evs IH]; intros h m i rep Hh Hm Hc; [reflexivity|].
-  cbn [run_obs step_opt]. destruct (hstep h e) as [[h' o]|] eqn:E; [|reflexivity].
-  destruct (mon_only_acc_nil m h e h' o Hh Hm Hc E) as [m' [Em [Hm' [Hh' Hc']]]].
-  cbn [monitor]. rewrite Em. cbn [filter map app]. apply IH; assumption.
-Qed.
-
-Definition unique_values (cfg : list N) : Prop := match cfg with [_] => True | [_; c] => c = 0%N | _ => True end.
-
-Theorem model_satisfies_monitors_clauses_acc cfg evs : unique_values cfg ->
-  monitor (mon_only proved_acc) 0 (minit cfg) [] evs (run_obs step_opt (hinit cfg) evs) = [].
-Proof.
-  intros Hu. destruct (hinit cfg) as [h|] eqn:Eh.
-  - destruct (minit cfg) as [m|] eqn:Em.
-    + apply model_satisfies_monitors_acc_gen; [exact (HR_init cfg h Eh) | exact (R_init cfg h m Eh Em)|].
-      unfold hinit in Eh. destruct cfg as [|k [|c [|? ?]]]; try discriminate; inversion Eh; [reflexivity|]. cbn in Hu. subst c. reflexivity.
-    + exfalso. unfold hinit, minit in *. destruct cfg as [|k [|c [|? ?]]]; discriminate.
-  - destruct evs; reflexivity.
-Qed.
-
-Theorem model_run_check_clean_clauses_acc cfg evs : unique_values cfg ->
-  length (run_obs step_opt (hinit cfg) evs) = length evs ->
-  run_check step_opt (mon_only proved_acc) (hinit cfg) (minit cfg) evs (run_obs step_opt (hinit cfg) evs) = [].
-Proof. intros Hu Hl. unfold run_check. rewrite (replay_own evs _ 0 Hl), (model_satisfies_monitors_clauses_acc cfg evs Hu). reflexivity. Qed.
